@@ -228,3 +228,28 @@ def run_case(case: dict) -> Outcome:
         bad.classes = classes
         return bad
     return Outcome(ok=True, nontrivial=(info["json_ok"] and info["raised"]) or case["kind"] == "special", classes=classes)
+
+
+FUZZ_TOKENS = [b'{', b'}', b'"', b':', b',', b'[', b']', b'null', b'"node_id"', b'"node_type"', b'"protocol_version"', b'"children"', b'"values"', b'"child_id"',
+               b'"child_type"', b'"sensor_id"', b'"type"', b'"id"', b'"battery_level"', b'"sleeping"', b'true', b'1e999', b'-1', b'256', b'\xff']
+
+
+def extra_engines(tier: str, seed: int):
+    import sys
+
+    from vf import fuzzrun
+    from vf.runner import Stats
+
+    if tier != "thorough" or not fuzzrun.available():
+        return Stats(), {"atheris": "not run (quick tier)" if tier != "thorough" else "atheris not importable: fuzz engine skipped"}
+    seeds = []
+    for name in ("test_aiomysensors_persistence.json", "test_pymysensors_persistence.json"):
+        path = os.path.join(os.environ.get("VERIF_REPO_SRC", "/repo/src"), "..", "tests", "fixtures", name)
+        try:
+            with open(path, "rb") as fil:
+                seeds.append(fil.read())
+        except OSError:
+            pass
+    seeds.append(b'{"1": {"node_id": 1, "node_type": 17, "protocol_version": "2.0", "children": {"1": {"child_id": 1, "child_type": 6, "values": {"0": "1"}}}}}')
+    crashes, info = fuzzrun.campaign("c14_file.py", seed, 60000, seeds, FUZZ_TOKENS, 1024, 4)
+    return fuzzrun.fold(sys.modules[__name__], crashes, info, lambda blob: {"kind": "content", "origin": "atheris", "data": blob.decode("latin-1")})
